@@ -66,6 +66,8 @@ def pool_specs(dt="f8"):
         "SumKronIdentitiesFirst": {"k": "Sum", "via": "ctor", "args": [
             {"k": "Kronecker", "via": "ctor", "args": [{"k": "Identity", "n": 2, "dt": dt}, {"k": "Identity", "n": 2, "dt": dt}]}, D(46)]},
         "BlockDiagIdentityFirst": {"k": "BlockDiag", "via": "ctor", "mult": [1, 1], "args": [{"k": "Identity", "n": 2, "dt": dt}, D(47, 2, 2)]},
+        "GenericFlip": {"k": "Generic", "shape": [N, N], "dt": dt, "seed": 50, "gen": "flip"},  # product returns a view of the operand
+        "SumFlipFirst": {"k": "Sum", "via": "ctor", "args": [{"k": "Generic", "shape": [N, N], "dt": dt, "seed": 51, "gen": "flip"}, D(52)]},
         "PSDKron": {"k": "Kronecker", "via": "ctor", "args": [
             {"k": "Annot", "name": "PSD", "arg": dict(D(38, 2, 2), gen="herm", eigs=[1.0, 2.0])},
             {"k": "Annot", "name": "PSD", "arg": dict(D(39, 2, 2), gen="herm", eigs=[1.5, 3.0])}]},
